@@ -37,6 +37,8 @@ CFG = {
         "match is kept explicitly in case_accept: `drained` = the action list releases every caller of an ordered program "
         "(completion); it is a fact about the harness's schedule (it always drains; a deadlock would stop the drain and is "
         "itself excluded at every round by the derived progress clause), not about the model. "
+        "The entry-count hook walks every slot of a group; if it faults on a locker whose slot table is laid out differently the "
+        "count over the key universe stands in (recorded as entries_hook_faults), so a hook fault is never a verdict. "
         "Generation stops after 25 ordered schedules that ended in an anomaly or deadlock (never on a correct locker): a "
         "diverging implementation leaves goroutines parked for good and must not make the check slow. "
         "Modelling choices: the table mutex is not a model lock - every table section is one atomic label except the "
@@ -61,7 +63,13 @@ CFG = {
         "struct{}{}, false, [0]int{}, 0.0 - all legal, distinct map keys; the sharded interface-keyed lockers panic on nil in "
         "remap.ToBytes before touching any state, recorded as advisory meta, so they keep hashable keys); on the generic lockers "
         "3 of 4 universes pass multi-key lists in per-caller buffers that are REUSED and overwritten in place for the next call "
-        "and scrambled as soon as Locks/RLocks returns (Unlocks gets a fresh equal slice); a case is non-trivial when it has at least 6 rounds and at some quiescent point a live "
+        "and scrambled as soon as Locks/RLocks returns (Unlocks gets a fresh equal slice); shard counts: besides 1/2/3/73, 16% of the sharded universes use the primes 251, 257, 509, 1021, 1031, 4099 and 2% use 65537, "
+        "with keys whose shard number is >= 256 (>= 1024 where the prime allows), so list-form and single-form callers of one "
+        "key meet beyond any narrow index width; plus the class first-touch (30 per quick run, ~700 bursts): a fresh sharded "
+        "locker (interface-keyed and generic, modulo/xxhash, mostly 1031/4099/65537 slots) and, for one never-used slot after "
+        "the other, a burst of 2-5 callers released from a spin barrier onto the same never-used key (or two keys of that slot), "
+        "observed at quiescence and drained before the next slot (sound under every schedule; whether a first-touch window of a "
+        "few instructions is hit is a matter of chance: about 1 in 100 bursts on this machine); a case is non-trivial when it has at least 6 rounds and at some quiescent point a live "
         "caller was blocked (had not returned); distinct = distinct Coq case term (actions + observations + labels)"
     ),
     "trusted": [
